@@ -1,5 +1,6 @@
 """C03 - backtracking leaves no trace, however a query ends."""
-from .. import gen, progcheck
+from .. import gen, progcheck, par, common
+from ..frame import Check
 PROP = 'C03'
 
 
@@ -8,12 +9,32 @@ def knobs(rnd):
                      max_body=4, n_rules=(1, 3), recursive=0.3)
 
 
+def case(rep, drv, rnd, i, tier):
+    if i % 6 == 5:
+        # a query that ends because evaluate_bounded's recursion limit strikes (deep / infinite
+        # families, also through dynamic facts): nothing may stay bound when the call returns
+        from . import c17
+        with common.deep_recursion():
+            pass
+        rep.count('ended-by-recursion-limit')
+        return c17._case(rep, drv, rnd, i, tier)
+    return progcheck.case(rep, drv, rnd, i, tier)
+
+
+RULE = ('random programs (cut, ;, ->, \\+, meta-calls, recursion) x queries x EVERY abandonment point k '
+        '(0..#answers, cap 12): closed, dropped, or the consumer raises; after each run every Variable ever '
+        'created (weak-set hook) must be unbound, answers must equal the reference prefix, and the query '
+        'run again must give the same answers; one case in six ends a query by evaluate_bounded\'s recursion limit '
+        '(infinite, left-recursive and deep families, also through dynamic facts) and checks that no variable stays bound; '
+        'non-trivial = >= 1 answer; distinct = distinct (program, query)')
+
+
 def run(tier):
-    progcheck.run(PROP, tier, knobs, 400, 8000, sched_mode='abandon', queries_per_prog=2,
-                  rule='random programs (cut, ;, ->, \\+, meta-calls, recursion) x queries x EVERY abandonment point k '
-                       '(0..#answers, cap 12): closed, dropped, or the consumer raises; after each run every Variable ever '
-                       'created (weak-set hook) must be unbound, answers must equal the reference prefix, and the query '
-                       'run again must give the same answers; non-trivial = >= 1 answer; distinct = distinct (program, query)')
+    n = 480 if tier == 'quick' else 9600
+    progcheck.configure(PROP, knobs=knobs, sched_mode='abandon', queries_per_prog=2)
+    with Check(PROP, tier) as chk:
+        par.run_cases(chk.rep, 'harness.checks.c03', 'case', n)
+        chk.finish(rule=RULE)
 
 
 replay = progcheck.replay
